@@ -28,8 +28,9 @@ META = {
                   'behaviour; each real step and the final quiescent state are re-judged by TLC.  A stress run with '
                   'real schedules (also with -race) records call/return events which TLC judges as well.',
     'level_note': 'Bounds: design check <= 4 appends, 2 readers, segment capacity 1-2 records, <= 2 read-only '
-                  'toggles; replayed behaviours <= 6 appends / 70 steps.  Single appender; no truncation, retention or '
-                  'compaction while reading (C08/C09); record content is judged by C01.  Stress findings are reported '
+                  'toggles; replayed behaviours <= 6 appends / 70 steps.  Single appender.  Truncation under live '
+                  'readers is covered at API granularity (lock-step: MC_CommitLogRd, <= 16 steps), not at gate '
+                  'granularity; retention/compaction while reading is C08/C09; record content is judged by C01.  Stress findings are reported '
                   'only after reproduction through the gates (otherwise exit 2).',
     'design_ref': 'DESIGN.md section 6/C03',
 }
@@ -193,50 +194,103 @@ def judge_gated(rep, behaviours, trace):
     return res, feats, bad
 
 
-def _truncates_under_reader(b):
-    """C03 assumes no truncation while a committed reader is alive (a reader whose HW segment object was replaced by
-    Truncate fails with 'no segment to consume' - CommitLog.tla/C01 territory, reported to its owner)."""
-    alive = set()
-    for s in b['steps']:
-        if s['a'] == 'NewReader' and s.get('c'):
-            alive.add(s['r'])
-        elif s['a'] == 'Reopen':
-            alive.clear()
-        elif s['a'] == 'Truncate' and alive:
-            return True
-    return False
+def _rd_features(beh):
+    """what a MC_CommitLogRd behaviour (TLC states) does to a live committed reader: 'trunc' = a Truncate leaves a
+    committed reader alive (the segment holding the truncation offset is rewritten under it), 'delivered' = that
+    reader had delivered before, 'append' / 'drain' = an append / a drain of that reader follows"""
+    f = set()
+    survivors, delivered = set(), set()
+    ahead, own = set(), set()
+    prev = beh[0]
+    for st in beh[1:]:
+        a = st['last']
+        pre, prev = prev, st
+        if a['a'] in ('Drain', 'Tail'):
+            obs = core.tlaval.state_var(st['body'], 'obs')
+            if obs.get('ret'):
+                delivered.add(a['r'])
+            if a['r'] in survivors and 'append' in f:
+                f.add('drain')
+            if a['r'] in ahead and 'append' in f:
+                f.add('hwseg-rewritten-ahead-of-reader')
+            if a['r'] in own:
+                f.add('own-segment-rewritten-after-delivery')
+        elif a['a'] == 'Truncate':
+            rd = core.tlaval.state_var(st['body'], 'rd')
+            alive = {r for r, v in rd.items() if v['alive'] and v['c']}
+            if alive:
+                f.add('trunc')
+                survivors |= alive
+                if alive & delivered:
+                    f.add('delivered')
+                # which segment is rewritten (the one holding o), relative to the HW and to each reader
+                bases = [x['base'] for x in core.tlaval.state_var(pre['body'], 'segs')]
+                hwv = core.tlaval.state_var(pre['body'], 'hw')
+                seg_of = lambda x: max([k for k, b in enumerate(bases) if b <= x] or [0])
+                prd = core.tlaval.state_var(pre['body'], 'rd')
+                for r in alive:
+                    nxt = prd[r]['next']
+                    if hwv >= 0 and seg_of(a['o']) == seg_of(hwv) and seg_of(nxt) < seg_of(hwv) and not prd[r]['parked']:
+                        ahead.add(r)
+                    if seg_of(a['o']) == seg_of(nxt) and r in delivered and bases[seg_of(nxt)] < a['o']:
+                        own.add(r)
+        elif a['a'] in ('Append', 'AppendSet') and survivors:
+            f.add('append')
+        elif a['a'] == 'NewReader':
+            for z in (survivors, delivered, ahead, own):
+                z.discard(a['r'])
+    return f
 
 
-def lockstep(rep, rng, seed, num):
-    """(a) sequential cases: CommitLog.tla behaviours with persistent committed/uncommitted readers, HW advances,
-    rolls, truncations and reopen, replayed lock-step by C01's driver and judged by Trace_CommitLog (P_Drain,
-    P_SetHW): reused, not duplicated."""
+def lockstep(rep, rng, seed, num, keep):
+    """(a) sequential cases: MC_CommitLogRd = CommitLog.tla with the step mix of a subscriber's view (persistent
+    COMMITTED readers that stay alive through appends above the HW, replicated appends, HW advances and
+    Truncate(o > hw), which rewrites the segment a reader sits in or the HW segment a reader in an earlier segment
+    still points to), replayed lock-step by C01's driver (reused, not duplicated) and judged by Trace_CommitLogRd
+    (P_Drain, P_SetHW, Do* as drift, C03_ReaderFailed, read-back of fresh committed readers).  Of `num` simulated
+    behaviours `keep` are executed: first those in which a committed reader survives a truncation and is drained
+    after further appends."""
     from checks import c01
-    sims = _retry(core.tlc_simulate, 'MC_CommitLog.tla', 'Sim_CommitLog.cfg', num, 12, seed + 31)
-    behaviours = [c01.decorate(b, rng, 500000 + i) for i, b in enumerate(sims) if len(b) > 1]
-    # 'Tail' (a reader blocking in its own goroutine) is C01's own experiment; blocking readers are what the gated
-    # replay of Reader.tla covers, so those behaviours are left to C01
-    behaviours = [b for b in behaviours if any(s['a'] == 'Drain' for s in b['steps']) and not _truncates_under_reader(b)
-                  and not any(s['a'] == 'Tail' for s in b['steps'])]
+    # free random walk of the reader mix + the scenario family "log rewritten under a live reader" (same actions,
+    # phased by the step counter)
+    sims = _retry(core.tlc_simulate, 'MC_CommitLogRd.tla', 'Sim_CommitLogRd.cfg', num * 3 // 5, 16, seed + 31)
+    sims += _retry(core.tlc_simulate, 'MC_CommitLogRd.tla', 'Sim_CommitLogRdFam.cfg', num * 2 // 5, 15, seed + 37)
+    sims = [b for b in sims if len(b) > 1 and any(st['last']['a'] in ('Drain', 'Tail') for st in b[1:])]
+    feats = [_rd_features(b) for b in sims]
+    special = {'hwseg-rewritten-ahead-of-reader', 'own-segment-rewritten-after-delivery'}
+    order = sorted(range(len(sims)), key=lambda i: (-len(feats[i] & special), -len(feats[i] & {'trunc', 'append', 'drain'}),
+                                                    -len(feats[i]), i))
+    order = order[:keep * 5 // 6] + rng.sample(order[keep * 5 // 6:], min(keep // 6, max(0, len(order) - keep * 5 // 6)))
+    behaviours = []
+    fmap = {}
+    for k, i in enumerate(sorted(order)):
+        b = c01.decorate(sims[i], rng, 500000 + k)
+        behaviours.append(b)
+        fmap[b['id']] = feats[i]
     with core.scratch('c03a') as d:
         trace = c01.execute(behaviours, d)
-        res = _retry(core.tlc_trace, 'Trace_CommitLog.tla', 'Trace_CommitLog.cfg', trace)
+        res = _retry(core.tlc_trace, 'Trace_CommitLogRd.tla', 'Trace_CommitLogRd.cfg', trace)
     by_id = {b['id']: b for b in behaviours}
     bad = {}
     for kind, tid, line, action, name in res['fails']:
-        if action not in ('Drain', 'SetHW', 'NewReader'):
-            continue            # appends, truncations ... are judged by the C01 check
         if kind == 'I':
             rep.drift({'behaviour': tid, 'line': line, 'action': action, 'what': name, 'spec': 'CommitLog'})
             continue
+        if action not in ('Drain', 'SetHW', 'NewReader', 'Truncate') and name == 'step':
+            continue            # the append steps themselves are judged by the C01 check
         bad.setdefault(tid, []).append((line, action, name))
     for tid, fl in bad.items():
         fl.sort()
         line, action, name = fl[0]
         rep.classify('C03|%s|%s|lockstep' % (name, action),
-                     'lock-step replay (CommitLog.tla): first failing step: line %d action %s' % (line, action),
+                     'lock-step replay (CommitLog.tla, reader mix): first failing step: line %d action %s' % (line, action),
                      {'kind': 'lockstep', 'behaviours': [by_id[tid]]})
-    return behaviours, res
+    hist = {}
+    for f in fmap.values():
+        for x in (f | ({'survives-truncation-then-append-then-drain'} if {'trunc', 'append', 'drain'} <= f else set())):
+            hist[x] = hist.get(x, 0) + 1
+    rep.cov['lockstep_reader_features'] = hist
+    return behaviours, res, fmap
 
 
 def stress_rounds(rng, n, msgs):
@@ -297,9 +351,9 @@ def run(rep, tier, seed, replay):
             if obj.get('kind') == 'lockstep':
                 from checks import c01
                 trace = c01.execute(obj['behaviours'], d)
-                res = core.tlc_trace('Trace_CommitLog.tla', 'Trace_CommitLog.cfg', trace)
+                res = core.tlc_trace('Trace_CommitLogRd.tla', 'Trace_CommitLogRd.cfg', trace)
                 for kind, tid, line, action, name in res['fails']:
-                    if kind == 'P' and action in ('Drain', 'SetHW', 'NewReader'):
+                    if kind == 'P' and (action in ('Drain', 'SetHW', 'NewReader', 'Truncate') or name != 'step'):
                         rep.classify('C03|%s|%s|lockstep' % (name, action), 'lock-step replay line %d' % line, obj)
             elif obj.get('kind') == 'stress':
                 trace = execute_stress(obj['rounds'], d, race=False)
@@ -331,6 +385,12 @@ def run(rep, tier, seed, replay):
     rep.add_design('MC_Reader(liveness)', res)
     if res['violated']:
         raise core.Inconclusive('the liveness check of Reader.tla fails (%s)' % res['violated'])
+    # sequential part: persistent committed readers across truncation / appends / HW advances (CommitLog.tla with
+    # the reader mix): every call satisfies P_* (P_Drain: exactly the committed records from the reader's position)
+    res = _check('MC_CommitLogRd.tla', 'MC_CommitLogRd_thorough.cfg' if thorough else 'MC_CommitLogRd.cfg', timeout=3000)
+    rep.add_design('MC_CommitLogRd(readers across truncation)', res)
+    if res['violated']:
+        raise core.Inconclusive('the design check of CommitLog.tla with the reader mix fails (%s)' % res['violated'])
     if thorough:
         # the unrepaired split (CAS first, list append later) as a seeded defect of the model: TLC must find it
         res = _check('MC_Reader.tla', 'MC_Reader_seeded.cfg', timeout=1200)
@@ -354,8 +414,10 @@ def run(rep, tier, seed, replay):
             hist[x] = hist.get(x, 0) + 1
     rep.cov['race_windows_crossed'] = hist
     # (a) sequential cases through C01's lock-step driver
-    lb, lres = lockstep(rep, rng, seed, 1500 if not thorough else 12000)
+    lb, lres, lfeat = lockstep(rep, rng, seed, *((3000, 360) if not thorough else (12000, 2500)))
     rep.cov['lockstep_behaviours_with_readers'] = len(lb)
+    rep.cov['distinct_nontrivial'] += len({core.sha(b['steps']) for b in lb
+                                           if {'trunc', 'append', 'drain'} <= lfeat[b['id']]})
     rep.cov['traces_validated_against_impl'] += len(lb)
     rep.cov['trace_lines_validated'] += lres['validated']
     # 5. stress with real schedules (plain and with the race detector)
@@ -393,6 +455,6 @@ def run(rep, tier, seed, replay):
                        're-sync, read-only toggled against a waiter, segment rolled while a reader was active, cleaner '
                        'roll against an append in flight); distinct by hash of the step list' % len(_directed()))
     rep.cov['samples'] = behaviours[:1] + [b for b in behaviours if b.get('directed')][:1]
-    rep.assumptions += ['single appender', 'no truncation/retention/compaction concurrent with the readers',
+    rep.assumptions += ['single appender', 'truncation is sequential with respect to the readers (not interleaved inside a read); no retention/compaction under the readers',
                         'HW never set beyond the last appended offset',
                         'TLC 1.8.0 evaluates the TLA+ predicates correctly']
